@@ -2459,7 +2459,17 @@ func (b *recBatch) tryBuffer(pr promisedRec, produceVersion, maxBatchBytes int32
 	nums := b.calculateRecordNumbers(pr.Record)
 
 	batchWireLength, _, _ := b.wireLengthForProduceVersion(produceVersion)
-	newBatchLength := batchWireLength + nums.wireLength()
+	added := nums.wireLength()
+	if produceVersion < 3 {
+		// The record will (or, if the version is not yet known, may)
+		// be written as a v0/v1 message, which can be larger than its
+		// v2 record encoding: size it as the larger of the two, or
+		// the message set can exceed the max batch bytes.
+		if m := messageSet1Length(pr.Record); m > added {
+			added = m
+		}
+	}
+	newBatchLength := batchWireLength + added
 
 	if b.frozen || newBatchLength > maxBatchBytes {
 		return false, false
